@@ -106,10 +106,13 @@ CLAIMED["C13"] = (
     "Trusted: rustc nightly MIR; mem::Discriminant representation; BTree iteration order.")
 
 CLAIMED["C14"] = (
-    "table extraction from the MIR of every STABLE_TYPE_ID constant (parameters folded, combine-chain shape, base names), purity of the const fns, word-level def-use links of the QueryID packing",
+    "table extraction from the MIR of every STABLE_TYPE_ID constant (parameters folded, combine-chain shape, base names), purity of the const fns, word-level def-use links of the QueryID packing; "
+    "compile-time witness crate of const assertions evaluated by rustc (id universe pairwise distinct, every name byte and the length reach the id)",
     "Decides: every type/const parameter of every Identifiable impl (145, incl. derives) reaches the id through an unbroken, non-symmetric combine chain; base names "
     "(with chain length) are pairwise distinct and derived names are `<pkg>@<version>::<module path>::<type>`; ids are pure const fns; from_raw_parts is unsafe and used at 2 audited sites; QueryID packs (type id, key hash) and "
-    "unpacks high/low consistently; registry and value store are keyed by <Q>::STABLE_TYPE_ID. Not decided: collision freedom of the 128-bit values.",
+    "unpacks high/low consistently; registry and value store are keyed by <Q>::STABLE_TYPE_ID; (C14.f, witness) the ids of a constructor-closed universe of 2 217 (quick) / 6 473 (thorough) "
+    "types are pairwise distinct and from_unique_type_name depends on every byte and on the length of names of 1..41 bytes, as computed by rustc's const evaluator at type-check time. "
+    "Not decided: collision freedom outside that universe; QueryID key hashes (runtime values).",
     "Trusted: rustc nightly MIR of associated consts; concat!/module_path! expansion by rustc.")
 CLAIMED["C15"] = (
     "dominance / guard-lifetime rules on the double-checked insertion, who-may-remove rule on typed shards, retain-predicate shape, wire-shape equivalence of Interned, control-dependence of the source/reference decision",
@@ -148,6 +151,8 @@ m = {
          "kind_free_text": "rustc_private driver (nightly) dumping promoted MIR, rustc's maybe-initialised move paths, impl/ADT/signature tables as JSON"},
         {"name": "E2 rule analyser", "path": "engine/qbv", "serves_properties": ids,
          "kind_free_text": "Python 3 stdlib: CFG, dominators, reachability with removed nodes/edges, def-use slices, await map, may-suspend / run-to-completion fixpoints, per-property rule tables"},
+        {"name": "E4 const-assertion witness", "path": "engine/qbv/witness.py", "serves_properties": ["C14"],
+         "kind_free_text": "generated crate of `const _: () = assert!(..)` items path-depending on /repo's qbice_stable_type_id; type-checked (never linked or run) with cargo +nightly check; failed assertions are build errors"},
     ],
     "checks": checks,
     "not_applicable": [{"property_id": i, "reason": NOT_YET} for i in ids if i not in CLAIMED],
